@@ -308,3 +308,27 @@ Proof.
   - intros Hu. split; [apply Hb; exact Hu | apply Fb; exact Hu].
   - exact Hr.
 Qed.
+
+(* C09_result: an accepted safe call returns EXACTLY the outcome of the export sitting in the selected slot - the
+   routine of the same element type and operation on that slot's back end - for any element type and any semantics
+   [rx] of exports (so every per-export theorem - C02/C03/C04/C05/C06 - transfers to the safe API verbatim). *)
+Theorem safe_run_is_export_run {T}
+        (rx : export -> form -> bool -> nat -> T -> list T -> list T -> list T -> xoutcome T) :
+  forall s f bc p debug m sf k x,
+    In s safe_entries -> find_safe_macro safe_macros (s_macro s) = Some m -> safe_fn_of m f = Some sf ->
+    safe_kernel s = Some k -> select_chain dispatch_chain bc p (supplied_of sf) = Some x ->
+    forall DIMS v a b res,
+      let l := {| len_a := List.length a; len_b := List.length b; len_r := List.length res; len_dims := DIMS |} in
+      asserts_pass l (sf_asserts sf) = true ->
+      (debug = true -> asserts_pass l (sf_debug_asserts sf) = true) ->
+      run_safe dispatch_chain rx exports safe_macros s f bc p debug DIMS v a b res
+      = rx (key_export (s_ty s, allowed_backend x (s_ty s), k)) f debug DIMS v a b res.
+Proof.
+  intros s f bc p debug m sf k x Hs Hm Hsf Hk Hsel DIMS v a b res l Hp Hdp.
+  destruct (selected_export s f bc p x m sf k Hs Hm Hsf Hk Hsel) as [e [He [Et [Eo Er]]]].
+  unfold run_safe, core_of. rewrite Hm, Hsf. unfold run_safe_core.
+  cbn [sc_asserts sc_debug_asserts sc_supplied sc_slot_key]. fold l. rewrite Hp. cbn [negb].
+  assert (Hdbg : debug && negb (asserts_pass l (sf_debug_asserts sf)) = false).
+  { destruct debug; [rewrite (Hdp eq_refl)|]; reflexivity. }
+  rewrite Hdbg, Hsel, find_slot_key, He. rewrite Et, Eo, Er. reflexivity.
+Qed.
